@@ -23,6 +23,7 @@ META = {
 }
 
 META['explanation'] += ' ' + 'R7: serialiser functions apply no strict text codec to field values. R8: serialisers store nothing into the rendered object (effect analysis of C13.R1 on the serialiser entry points).'
+META['explanation'] += ' ' + 'R10: float valued fields refuse NaN / infinities (their __attrs_post_init__ evaluated). R11: every return of the Markdown functions is a Markdown result or a (flag, text) pair (def-use analysis of text). R12: a list display is not concatenated with a field validated by deep_iterable only. R13: _json_result / _markdown_result evaluated with the real datetime type on pairs of equal leaf values.'
 
 SET_NAMES = {'set', 'frozenset'}
 
@@ -565,11 +566,16 @@ def markdown_yields_text(ctx, report, RULE='C14.R11'):
                 assigns.setdefault(n.target.id, []).append((n.value, 'whole', n))
         string_tested = {}      # id(statement) -> names known to be strings there (if isinstance(x, string types): <body>)
         for n in ast.walk(f.node):
-            if isinstance(n, ast.If) and isinstance(n.test, ast.Call) and isinstance(n.test.func, ast.Name) and n.test.func.id == 'isinstance' \
-                    and len(n.test.args) == 2 and isinstance(n.test.args[0], ast.Name) and 'string_types' in ast.unparse(n.test.args[1]):
-                for st in n.body:
+            if not isinstance(n, ast.If):
+                continue
+            test, arms = n.test, (n.body, n.orelse)
+            if isinstance(test, ast.UnaryOp) and isinstance(test.op, ast.Not):
+                test, arms = test.operand, (n.orelse, n.body)        # if not isinstance(...): <other> else: <strings>
+            if isinstance(test, ast.Call) and isinstance(test.func, ast.Name) and test.func.id == 'isinstance' \
+                    and len(test.args) == 2 and isinstance(test.args[0], ast.Name) and 'string_types' in ast.unparse(test.args[1]):
+                for st in arms[0]:
                     for sub in ast.walk(st):
-                        string_tested.setdefault(id(sub), set()).add(n.test.args[0].id)
+                        string_tested.setdefault(id(sub), set()).add(test.args[0].id)
 
         def texty(node, seen=()):
             if isinstance(node, ast.Constant):
@@ -628,7 +634,7 @@ def markdown_yields_text(ctx, report, RULE='C14.R11'):
             report.add(RULE, '%s@return[%s]' % (f.construct, ast.unparse(n.value)[:40]),
                        '`return %s`: the second component is not text on every path (it is whatever the expression yields - a Base64Data, a Url, a number): '
                        'as_markdown() hands it to the caller as it is' % ast.unparse(n.value)[:60])
-    report.floor(RULE, 20, 'Markdown functions')
+    report.floor(RULE, 12, 'Markdown functions')
 
 
 # ---- R12: sequences joined with + are of one kind ------------------------------------------------------------------------------
